@@ -64,7 +64,7 @@ def op(draw):
     kind = draw(st.sampled_from(['read', 'read', 'write', 'write', 'multi', 'bigread', 'bigwrite', 'oob', 'unknown',
                                  'raw_read', 'raw_write', 'conn_read', 'conn_write']))
     if kind in ('bigread', 'bigwrite'):
-        n = draw(st.sampled_from([123, 124, 200, 490, 700]))
+        n = draw(st.sampled_from([121, 122, 123, 124, 200, 244, 366, 488, 490, 610, 700]))     # incl. whole multiples of one reply (122 DINTs)
         start = draw(st.integers(0, 700 - n))
         o = {'kind': kind, 'tag': 'Big', 'elem': start, 'count': n}
         if kind == 'bigwrite':
